@@ -2,6 +2,7 @@ CONSTANTS
   SeriesFirst = FALSE
   CommitSeqBeforeWrite = FALSE
   FreezeBeforeMetaFlush = FALSE
+  ExpireOnConsumed = FALSE
 SPECIFICATION TraceSpec
 INVARIANTS SeriesIndexed AckNotAhead NoLoss NoReapply FlushedResolves NoIdReuse IndexedResolves AckedDataIndexed
 CONSTRAINT HighWater
